@@ -253,6 +253,13 @@ def extra_cases():
         if not (isinstance(a, tuple) and opt in a[1]) or not (isinstance(b, tuple) and opt in b[1]):
             bad.append((f"{opt} = true must be rejected naming the option in both formats", {"fpm.toml": a if isinstance(a, tuple) else repr(getattr(a, opt)), "project file": b if isinstance(b, tuple) else repr(getattr(b, opt))},
                         f"errors mentioning '{opt}'"))
+    # a number option takes an integer literal and nothing else, in both formats
+    for lit in ("4.5", "2.0", "1e3"):
+        a, d, _ = _run(md_meta=f"max_frontpage_items: {lit}\n")
+        b, d2, _ = _run(toml=f"max_frontpage_items = {lit}\n")
+        if not (isinstance(a, tuple) and "max_frontpage_items" in a[1]) or not (isinstance(b, tuple) and "max_frontpage_items" in b[1]):
+            bad.append((f"max_frontpage_items = {lit} must be rejected naming the option in both formats", {"project file": a if isinstance(a, tuple) else repr(a.max_frontpage_items), "fpm.toml": b if isinstance(b, tuple) else repr(b.max_frontpage_items)},
+                        "errors mentioning 'max_frontpage_items'"))
     # an option set to the empty string is set: `docmark_alt:` (nothing after the colon) switches the alternative doc comments off like `docmark_alt = ""`
     for opt in ("docmark_alt", "predocmark_alt", "year"):
         a, d, _ = _run(md_meta=f"{opt}:\nrevision: r1\n")
